@@ -19,19 +19,19 @@ import (
 )
 
 type Ctx struct {
-	Tier   string
-	progs  map[string]*load.Program
-	eff    map[string]*effects.Analysis
-	grd    map[string]*guards.Engine
-	tnt    map[string]*taint.Engine
-	Set    *report.Set
-	loaded []string
+	Tier    string
+	progs   map[string]*load.Program
+	eff     map[string]*effects.Analysis
+	grd     map[string]*guards.Engine
+	tnt     map[string]*taint.Engine
+	Set     *report.Set
+	loaded  []string
 	Samples []interface{}
 	// limbPositional names abstract Element inputs by position (for sibling comparison)
 	limbPositional bool
 	limbInts       []int64 // concrete values for integer parameters (variant comparison)
 	cglob          map[string]map[string]absint.Val
-	Extra   map[string]interface{}
+	Extra          map[string]interface{}
 }
 
 func NewCtx(tier string) *Ctx {
@@ -78,6 +78,8 @@ func (c *Ctx) Eff(cfg string) *effects.Analysis {
 		return nil
 	}
 	a := effects.Run(p)
+	// Swap(v,v) is decided by evaluation (ruleSelfSwap, part of C11); its helpers inherit no alias demand from it
+	a.AliasByEvaluation = map[string]bool{"field.(*Element).Swap": true}
 	c.eff[cfg] = a
 	return a
 }
